@@ -37,6 +37,11 @@ ASSUMPTIONS = [
     "such directions are counted as fd_dirs_not_smooth, never as support or violation)",
     "excited-state cells are compared only when the active root is >= 0.2 eV from its neighbours at x and keeps its "
     "identity (|dE_k| <= 0.05 eV, neighbours >= 0.1 eV away) at every displaced point",
+    "bounds: |F.d + dE/ds| <= 5e-6 + 1e-6|F.d| for reverse-mode differentiation; the analytical and semi-numerical "
+    "evaluators differentiate the overlaps (semi-numerical: all integrals) by an inner central difference of "
+    "anal_grad.delta = 1e-5 A, which amplifies the overlap routine's round-off noise (<= 8e-12, measured over the whole "
+    "pair matrix just above its |x|=0.5 branch switch) by 1/delta: they get the extra allowance "
+    "4 * 8e-12 * max(|beta_A|+|beta_B|) / delta (3e-5 .. 4e-4 eV/A depending on the elements)",
     "mechanism classifier `analytical-missing-hpp-floor` re-runs the analytical evaluator with hpp clamped at 0.1 eV inside "
     "anal_grad.w_der (monkey-patch in the worker, nothing on disk) and requires that this removes the discrepancy",
 ]
@@ -48,7 +53,13 @@ HS = (4e-3, 2e-3, 1e-3)
 TOL_ABS = 5e-6
 TOL_REL = 1e-6
 TOL_EVAL = 5e-6
-TOL_EVAL_NUM = 2e-5
+# Evaluators with an inner difference step ("analytical": overlap and PM6_SP core-core derivatives; "numerical": all
+# integral derivatives) differentiate the beta-weighted overlap by a central difference of step anal_grad.delta
+# (1e-5 A).  The overlap routine's auxiliary B-integral recursion carries round-off noise of up to ETA_S just above
+# its |x| = 0.5 branch switch (measured over the whole element-pair matrix of all four tables: worst 7.4e-12, third-row
+# pairs), which the inner step amplifies by 1/delta.  Allowance: INNER_K * ETA_S * max_pairs(|beta|_A + |beta|_B) / delta.
+ETA_S = 8e-12
+INNER_K = 4.0
 EST_ABS = 5e-7
 EST_REL = 1e-7
 CURV_ABS = 1.0      # eV/A^2
@@ -82,7 +93,9 @@ def _pair_case(g, method, a, b, scale, orient, modes=None, conv=None, uhf=None):
     if nel % 2 == 1:
         charge, mult = (0, 2) if uhf else (1, 1)
     else:
-        charge, mult = (0, 3) if (uhf and nel >= 4 and int(g.integers(0, 3)) == 0) else (0, 1)
+        norb = sum(4 if z > 1 else 1 for z in (a, b))
+        trip = uhf and nel >= 4 and (nel + 2) // 2 < norb and int(g.integers(0, 3)) == 0   # needs an alpha virtual
+        charge, mult = (0, 3) if trip else (0, 1)
     if nel - charge < 2:           # H2+ like: keep two electrons
         charge, mult, uhf = 0, 1, False
     d = max(0.65, scale * (RC[a] + RC[b]))
@@ -177,8 +190,8 @@ def gen_cases(tier, seed):
     cases = []
     quick = tier == "quick"
     # ---- lattice samples over the library (expensive ones first) -------------------------
-    n_lib = 170 if quick else 2500
-    n_exc = 28 if quick else 220
+    n_lib = 140 if quick else 2500
+    n_exc = 22 if quick else 220
     lib = []
     for _ in range(n_exc):
         lib.append(_excited_case(g, tier))
@@ -207,8 +220,9 @@ def gen_cases(tier, seed):
             odd = (gen.VALENCE[a] + gen.VALENCE[b]) % 2 == 1
             if quick:
                 sc = scales[int(g.integers(0, 3))]
-                uhf = (k % 4 == 0)
-                pairs.append(_pair_case(g, method, a, b, sc, _orient_generic(), uhf=uhf))
+                uhf = (k % 6 == 0)
+                pairs.append(_pair_case(g, method, a, b, sc, _orient_generic(), uhf=uhf,
+                                        conv=([[1], [0, 0.3]][int(g.integers(0, 2))] if uhf else None)))
                 if k % 5 == int(g.integers(0, 5)):
                     pairs.append(_pair_case(g, method, a, b, scales[int(g.integers(0, 3))], _orient_axis(g), uhf=False))
             else:
@@ -314,7 +328,7 @@ def _directions(case, Z, X, g):
                 d[a, c] = 1.0
                 dirs.append(d)
                 labels.append("cart:%d:%s" % (a, "xyz"[c]))
-        nrand, nloc = 2, 0
+        nrand, nloc = 0, 0          # the full Cartesian gradient is differenced: random directions add nothing
     else:
         nrand, nloc = 3, 3
     for k in range(nrand):
@@ -391,6 +405,38 @@ def fd_energy_derivatives(Z, X, q, m, sett, dirs, excited=None):
         ok.append(good)
     return {"E0": float(E[0]), "nc0": bool(nc[0]), "D": D, "est": est, "ok": ok, "curv": curv, "evals": len(geoms),
             "cis0": None if ce is None else ce[0]}
+
+
+_BETA = {}
+
+
+def inner_step_allowance(method, Z):
+    """force error an inner-difference evaluator may carry from overlap round-off noise (see ETA_S), eV/A."""
+    import os
+    from vlib import env
+    if method not in _BETA:
+        fn = os.path.join(env.REPO, "seqm", "params", "parameters_%s_MOPAC.csv" % method)
+        b = {}
+        with open(fn) as f:
+            hdr = f.readline().strip().replace(" ", "").split(",")
+            for line in f:
+                t = line.strip().replace(" ", "").split(",")
+                try:
+                    row = dict(zip(hdr, t))
+                    b[int(t[0])] = max(abs(float(row["beta_s"])), abs(float(row["beta_p"])))
+                except ValueError:
+                    continue
+        _BETA[method] = b
+    try:
+        from seqm.seqm_functions import anal_grad
+        delta = float(anal_grad.delta)
+    except Exception:
+        delta = 1e-5
+    zs = sorted(set(Z), key=lambda z: -_BETA[method].get(z, 0.0))
+    bsum = _BETA[method].get(zs[0], 0.0) + _BETA[method].get(zs[1] if len(zs) > 1 else zs[0], 0.0)
+    if len(zs) == 1 or list(Z).count(zs[0]) > 1:
+        bsum = max(bsum, 2 * _BETA[method].get(zs[0], 0.0))
+    return INNER_K * ETA_S * bsum / delta
 
 
 def hpp_floor_elements(method):
@@ -577,7 +623,8 @@ def run_case(case):
             for j in range(i + 1, len(live)):
                 a, b = live[i], live[j]
                 dF = np.abs(outs[a]["force"][r, :n] - outs[b]["force"][r, :n])
-                tol = TOL_EVAL_NUM if "numerical" in (a, b) else TOL_EVAL
+                inner = any(x in ("analytical", "numerical") for x in (a, b))
+                tol = TOL_EVAL + (inner_step_allowance(case["method"], Z) if inner else 0.0)
                 mon["evaluator_pairs_compared"] += 1
                 if upd("evaluators/%s-vs-%s" % (a, b), dF.max(), tol):
                     at = int(np.unravel_index(np.argmax(dF), dF.shape)[0])
@@ -630,7 +677,8 @@ def run_case(case):
                     obs["max_curvature_guard_ratio"] = max(obs.get("max_curvature_guard_ratio", 0.0), float(fd["curv"][k]))
                     fdotd = float((F * d).sum())
                     err = abs(fdotd + fd["D"][k])
-                    tol = TOL_ABS + TOL_REL * abs(fdotd) + sp2_allow
+                    tol = TOL_ABS + TOL_REL * abs(fdotd) + sp2_allow + \
+                        (inner_step_allowance(case["method"], Z) if mo in ("analytical", "numerical") else 0.0)
                     mon["fd_dirs_compared"] += 1
                     nontrivial = True
                     if exc:
@@ -696,7 +744,15 @@ def summarize(cases, results, report):
             continue
         if (r.get("monitors") or {}).get("fd_dirs_compared", 0) > 0:
             seen[c["method"]].add(tuple(c["pair"]))
-    return {"pair_matrix": {m: {"pairs_compared": len(seen[m]), "pairs_total": tot[m],
+    clean = {}
+    from vlib import verdict
+    for c, r in zip(cases, results):
+        if not r or r.get("violations"):
+            continue
+        for k, v in (r.get("margins") or {}).items():
+            if v is not None and not (v <= clean.get(k, {"worst": -1.0})["worst"]):
+                clean[k] = {"worst": v, "case": verdict.case_id(c)}
+    return {"worst_margin_over_cases_without_violation": clean, "pair_matrix": {m: {"pairs_compared": len(seen[m]), "pairs_total": tot[m],
                                 "not_compared": sorted("%d-%d" % p for p in
                                                        (set((max(a, b), min(a, b)) for a, b in _pairs(m)) - seen[m]))[:60]}
                             for m in METHODS}}
